@@ -25,6 +25,7 @@ import (
 	"github.com/scionproto/scion/control/beacon"
 	"github.com/scionproto/scion/pkg/addr"
 	"github.com/scionproto/scion/pkg/private/xtest/graph"
+	"github.com/scionproto/scion/pkg/scrypto/signed"
 	seg "github.com/scionproto/scion/pkg/segment"
 	"github.com/scionproto/scion/pkg/segment/iface"
 	"github.com/scionproto/scion/private/pathdb/query"
@@ -32,7 +33,6 @@ import (
 	beaconsqlite "github.com/scionproto/scion/private/storage/beacon/sqlite"
 	sdb "github.com/scionproto/scion/private/storage/db"
 	pathsqlite "github.com/scionproto/scion/private/storage/path/sqlite"
-	"github.com/scionproto/scion/private/storage/utils"
 
 	"verifharness/vlib"
 )
@@ -59,6 +59,20 @@ func u64s(l []uint64) string {
 		s = append(s, fmt.Sprint(x))
 	}
 	return csvOr(s)
+}
+
+// lastVersion reads the version of a path segment — the signing time (ns) of its last AS
+// entry — directly from the signed header, independently of the store's own helper
+// (private/storage/utils), so that a change there cannot also change the reference.
+func lastVersion(ps *seg.PathSegment) (int64, error) {
+	if len(ps.ASEntries) == 0 {
+		return 0, fmt.Errorf("no AS entries")
+	}
+	hdr, err := signed.ExtractUnverifiedHeader(ps.ASEntries[len(ps.ASEntries)-1].Signed)
+	if err != nil {
+		return 0, err
+	}
+	return hdr.Timestamp.UnixNano(), nil
 }
 
 type ident struct {
@@ -134,9 +148,12 @@ func mkSeg(ids []ident, k segKey) *segInfo {
 	}
 	info.seg = ps
 	info.id, info.full = id16(ps.ID()), id16(ps.FullID())
-	v, err := utils.ExtractLastHopVersion(ps)
+	v, err := lastVersion(ps)
 	if err != nil {
 		panic(err)
+	}
+	if v != k.ver {
+		panic(fmt.Sprintf("signing time %d read back as %d", k.ver, v))
 	}
 	info.ver = v
 	info.maxExp = ps.MaxExpiry().Unix()
@@ -238,7 +255,7 @@ func main() {
 	}
 	e.Rule = "random histories (40-60 ops) over a fresh in-memory SQLite path DB and beacon DB: " +
 		"inserts of 6+5 overlapping segment identities x peer variant x 5 info timestamps x " +
-		"8 versions (ns-granular) x 3 hop lifetimes x 3 types x 4 hidden-path groups, " +
+		"12 versions (5 ten seconds apart, 7 within/around one second: +1 ns, +400 ms, +999 ms, +1 s) x 3 hop lifetimes x 3 types x 4 hidden-path groups, " +
 		"expiry clean-ups, prefix deletions, next-query writes, and queries with random filter " +
 		"combinations; non-trivial = op on a non-empty store; distinct by op line within history"
 	nHist := e.N(300, 2500)
@@ -315,14 +332,17 @@ func (h *history) pickSeg() *segInfo {
 	r := h.r
 	k := segKey{ident: r.Intn(len(h.pids)), peer: uint16(r.Intn(3)) * 11,
 		infoTS: base + int64(r.Intn(5))*100, exp: uint8(r.Intn(3))}
-	// versions: 10 s apart, plus two that differ by 1 ns only (stored granularity is ns)
-	v := r.Intn(8)
-	k.ver = (base + int64(v)*10) * 1e9
-	if v >= 6 {
-		k.ver = (base+50)*1e9 + int64(v-6)
+	// versions: 10 s apart, plus a cluster inside ONE wall-clock second (stored granularity is
+	// ns: +1 ns, +400 ms, +999 ms are strictly newer) and across the next second boundary
+	if r.Chance(45) {
+		k.ver = (base + int64(r.Intn(5))*10) * 1e9
+	} else {
+		k.ver = (base+50)*1e9 + subSecond[r.Intn(len(subSecond))]
 	}
 	return mkSeg(h.pids, k)
 }
+
+var subSecond = []int64{0, 1, 400_000_000, 999_000_000, 999_999_999, 1_000_000_000, 1_000_000_001}
 
 var segTypes = []seg.Type{seg.TypeUp, seg.TypeDown, seg.TypeCore}
 
@@ -365,6 +385,14 @@ func (h *history) pathOp() {
 			tag = "pins-newer"
 			if s.full != row.s.full {
 				tag = "pins-newer-fullid"
+			}
+			if s.ver/1e9 == row.s.ver/1e9 { // same wall-clock second, newer by < 1 s
+				tag = "pins-newer-same-second"
+				if !row.types[typ] || newGroup(row.groups, g) {
+					tag = "pins-newer-same-second-accumulates"
+				}
+			} else if s.ver-row.s.ver < 1e9 {
+				tag = "pins-newer-across-second"
 			}
 		case s.ver == row.s.ver:
 			tag = "pins-equal"
@@ -515,6 +543,15 @@ func (h *history) pathOp() {
 	default: // query
 		h.pathQuery(tg)
 	}
+}
+
+func newGroup(have map[uint64]bool, g []uint64) bool {
+	for _, x := range g {
+		if !have[x] {
+			return true
+		}
+	}
+	return false
 }
 
 func (h *history) anyPathID() string {
@@ -679,7 +716,7 @@ func (h *history) pathQuery(tg func(string) string) {
 		for _, x := range rs {
 			gs := append([]uint64(nil), x.HPGroupIDs...)
 			sort.Slice(gs, func(i, j int) bool { return gs[i] < gs[j] })
-			v, err := utils.ExtractLastHopVersion(x.Seg)
+			v, err := lastVersion(x.Seg)
 			if err != nil {
 				return "err-version"
 			}
